@@ -1007,6 +1007,13 @@ class DocGen:
         if r.random() < 0.25:
             out.append(" " + r.choice(["checked", "disabled", "hidden", "SELECTED"]))
             self.used.add("boolean-attr")
+        if r.random() < 0.12:
+            # namespace declarations and namespaced attributes of other vocabularies (XHTML, inline SVG/MathML):
+            # attributes like any other to a document that uses no TAL
+            out.append(" " + r.choice(['xmlns="http://www.w3.org/1999/xhtml"', 'xmlns="http://www.w3.org/2000/svg"',
+                                       'xmlns:xlink="http://www.w3.org/1999/xlink"', 'xml:lang="en"', 'xlink:href="#a"',
+                                       'XMLNS="http://www.w3.org/1998/Math/MathML"', "xmlns='urn:x'", 'xmlns:tal2="urn:not-tal"']))
+            self.used.add("namespace-attr")
         return "".join(out)
 
     def node(self, depth: int) -> str:
